@@ -59,13 +59,25 @@ class Ctx:
         self.ptrs = set()         # opaque pointer parameters (only handed on to _cbor_realloc)
         self.ptrlocals = set()    # pointer-typed locals of a `ptr`-returning function (option values)
         self.unions = {}          # local union helper variable -> float parameter it was initialised from
+        self.union_member = {}    # ... -> name of the floating-point member that was written
         self.unassigned = set()   # locals declared without an initialiser and not yet assigned
         self.ub = False           # ub mode: the function returns an option, None = undefined behaviour
         self.checks = []          # pending definedness tests of the statement being translated
         self.guards = []          # conditions under which the sub-expression being translated is evaluated
         self.ret_mode = "int"
+        self.loopvars = []        # per loop, the names of the state components in tuple order ("exit" last when present)
+        self.last_return_const = None
+        self.consts = {}          # variables known to hold a literal on this path (results of inlined helpers)
+        self.inline_n = 0         # counter for the renaming of inlined helpers
+        self.inline_stack = []    # names of the static helpers being inlined (no recursion)
+        self.ret_stack = []       # continuations that receive the value an inlined helper returns
+        self.deref = {}           # pointer parameter of an inlined helper -> text of the variable it points to
+        self.status_alias = set() # pointer parameters of inlined helpers that are the struct out-parameter
+        self.fn_names = set()     # names in the FUNCTIONS table (never inlined)
         self.sfields = None       # (parameter, {int field: width}, {pointer fields}) of a struct whose integer fields are state s_<f>
         self.skipped = set()      # parameters that are not rendered (only copied into fresh memory)
+        self.nullptrs = set()     # pointer locals that are NULL on this path (granted mode)
+        self.unsetptrs = set()    # pointer locals declared without a value (granted mode)
         self.requests = set()     # pointer locals bound to the answer of an allocator request
         self.req = None           # the request made so far on this path (text), None = none
         self.granted = False      # ptr mode with the allocator's answer as the input a_granted
@@ -251,6 +263,17 @@ def nonneg(n):
 SIZEOF_CONFIG = {"struct _cbor_stack_record": "gen_sizeof_rec", "cbor_item_t": "gen_sizeof_item", "struct cbor_item_t": "gen_sizeof_item",
                  "struct cbor_pair": "gen_sizeof_pair", "struct cbor_indefinite_string_data": "gen_sizeof_isd"}
 
+def is_status(name, cx):
+    return bool(cx.status) and (name == cx.status[0] or name in cx.status_alias)
+
+def deref_var(name, cx):
+    """text of the variable `*name` denotes, for an in/out parameter or an aliased helper parameter"""
+    if name in cx.deref:
+        return cx.deref[name]
+    if name in cx.inouts:
+        return "p_" + name
+    return None
+
 def is_null(n):
     m = n
     while m.get("kind") in ("ParenExpr", "ImplicitCastExpr", "CStyleCastExpr"):
@@ -258,6 +281,10 @@ def is_null(n):
             return True
         m = m["inner"][-1]
     return False
+
+def is_nullptr(n, cx):
+    m = cast.strip(n)
+    return is_null(n) or (m.get("kind") == "DeclRefExpr" and m["referencedDecl"]["name"] in cx.nullptrs)
 
 def is_request(n, cx):
     m = cast.strip(n)
@@ -282,6 +309,8 @@ def union_bits(n, cx):
         fp = union_init(il, cx)
     elif base.get("kind") == "DeclRefExpr" and base["referencedDecl"]["name"] in cx.unions:
         fp = cx.unions[base["referencedDecl"]["name"]]
+        if fp is not None and n.get("name") == cx.union_member.get(base["referencedDecl"]["name"]):
+            raise Unsupported("read of the floating-point member")
     if fp is None or signed or cx.floats[fp] != w:
         raise Unsupported("union read")
     return "v_" + fp
@@ -341,6 +370,8 @@ def E(n, cx):
             return str(cx.enum_value(d["name"]))
         if d["name"] in cx.requests:
             return "(b2z a_granted)"      # a pointer as a truth value: non-null iff the allocator granted the request
+        if d["name"] in cx.nullptrs:
+            return "0"
         if d["name"] in cx.skipped:
             raise Unsupported("use of the unrendered parameter " + d["name"])
         if d["name"] in cx.floats:
@@ -353,7 +384,10 @@ def E(n, cx):
         return "v_" + d["name"]
     if k == "UnaryExprOrTypeTraitExpr":
         if n.get("name") == "sizeof":
-            at = n.get("argType", {}).get("qualType", "?")
+            at = n.get("argType", {}).get("qualType")
+            if at is None and n.get("inner"):
+                at = ctype(n["inner"][0])       # sizeof(*p), sizeof expr: the (unevaluated) operand's type
+            at = at or "?"
             if at in SIZEOF_CONFIG:
                 return "(Z.of_N %s)" % SIZEOF_CONFIG[at]    # measured on the build (Gen_config)
             w, _ = width(at)
@@ -374,6 +408,8 @@ def E(n, cx):
             raise Unsupported("operator ,")
         if op in ("==", "!=") and cx.granted and (is_request(a, cx) and is_null(b) or is_request(b, cx) and is_null(a)):
             return "(b2z (negb a_granted))" if op == "==" else "(b2z a_granted)"
+        if op in ("==", "!=") and cx.granted and is_nullptr(a, cx) and is_nullptr(b, cx):
+            return "1" if op == "==" else "0"
         ea, eb = E(a, cx), E(b, cx)
         if op in ("<", "<=", ">", ">=", "==", "!="):
             width(ctype(a)); width(ctype(b))      # integer comparison
@@ -423,9 +459,12 @@ def E(n, cx):
         if op == "*":
             # *(source + k)
             p = cast.strip(n["inner"][0])
-            if p.get("kind") == "DeclRefExpr" and p["referencedDecl"]["name"] in cx.inouts:
+            if p.get("kind") == "DeclRefExpr" and deref_var(p["referencedDecl"]["name"], cx):
                 width(ctype(n))
-                return "p_" + p["referencedDecl"]["name"]
+                dv = deref_var(p["referencedDecl"]["name"], cx)
+                if dv.startswith("v_") and dv[2:] in cx.unassigned:
+                    raise Unsupported("read of an uninitialised local")
+                return dv
             off = ptr_off(p, cx)
             if off is not None:
                 return "(v_%s %d)" % off
@@ -445,7 +484,7 @@ def E(n, cx):
                 and b["referencedDecl"]["name"] not in cx.bound and cx.ub and "const" in b.get("type", {}).get("qualType", "")):
             # the DFA table of unicode.c (Gen_utf8d.gen_utf8d); an index outside the table is undefined behaviour
             ei = E(idx, cx)
-            cx.need("((0 <=? %s) && (%s <? Z.of_nat (length gen_utf8d)))" % (ei, ei))
+            cx.need("((0 <=? %s) && (%s <? Z.of_nat (List.length gen_utf8d)))" % (ei, ei))
             return "(tblz gen_utf8d %s)" % ei
         raise Unsupported("array read")
     if k == "MemberExpr":
@@ -455,7 +494,7 @@ def E(n, cx):
         if n.get("isArrow") and cx.sfields and base.get("kind") == "DeclRefExpr" and base["referencedDecl"]["name"] == cx.sfields[0] \
                 and n["name"] in cx.sfields[1]:
             return "s_" + n["name"]
-        if n.get("isArrow") and cx.status and base.get("kind") == "DeclRefExpr" and base["referencedDecl"]["name"] == cx.status[0]:
+        if n.get("isArrow") and cx.status and base.get("kind") == "DeclRefExpr" and is_status(base["referencedDecl"]["name"], cx):
             if n["name"] not in cx.status_set:
                 raise Unsupported("read of a field of the out-parameter before it is assigned")
             return "t_" + n["name"]
@@ -636,6 +675,271 @@ def assigned_in(n, names, declared, cx):
     for c in n.get("inner", []):
         assigned_in(c, names, declared, cx)
 
+# ---------------------------------------------------------------------------------------------
+# static helper functions of the same file are inlined at their call sites (alpha-renamed copy of the body)
+def static_value(n, cx):
+    """value of an expression that is a literal on this path (literals, variables in cx.consts, ! == != casts), or None"""
+    k = n.get("kind")
+    if k in ("ParenExpr", "ConstantExpr"):
+        return static_value(n["inner"][-1], cx)
+    if k == "IntegerLiteral":
+        return int(n["value"])
+    if k == "CXXBoolLiteralExpr":
+        return 1 if n.get("value") else 0
+    if k in ("ImplicitCastExpr", "CStyleCastExpr"):
+        v = static_value(n["inner"][-1], cx)
+        if v is None:
+            return None
+        ck = n.get("castKind")
+        if ck in ("LValueToRValue", "NoOp"):
+            return v
+        if ck == "IntegralToBoolean":
+            return 1 if v != 0 else 0
+        if ck == "IntegralCast":
+            try:
+                w, signed = width(ctype(n))
+            except Unsupported:
+                return None
+            return v if (signed and -(1 << (w - 1)) <= v < (1 << (w - 1))) else (v % (1 << w) if not signed else None)
+        return None
+    if k == "DeclRefExpr":
+        return cx.consts.get(n["referencedDecl"]["name"])
+    if k == "UnaryOperator" and n.get("opcode") == "!":
+        v = static_value(n["inner"][0], cx)
+        return None if v is None else (1 if v == 0 else 0)
+    if k == "BinaryOperator" and n.get("opcode") in ("==", "!="):
+        a, b = (static_value(x, cx) for x in n["inner"])
+        if a is None or b is None:
+            return None
+        return int((a == b) == (n["opcode"] == "=="))
+    return None
+
+def helper_decl(name, cx):
+    """FunctionDecl (with body) of a `static` function of this translation unit, or None"""
+    if name in cx.fn_names or name in cx.known or name in cx.known_ub or name in cx.inline_stack:
+        return None
+    for d in cx.tu():
+        for x in (d.get("inner", []) if d.get("kind") == "TranslationUnitDecl" else [d]):
+            if x.get("kind") == "FunctionDecl" and x.get("name") == name and x.get("storageClass") == "static" \
+                    and any(c.get("kind") == "CompoundStmt" for c in x.get("inner", [])):
+                return x
+    return None
+
+def helper_call(n, cx):
+    """(CallExpr node, FunctionDecl) if n (through casts / parens) is a call of an inlinable helper"""
+    m = cast.strip(n)
+    if m.get("kind") != "CallExpr":
+        return None
+    f = cast.strip(m["inner"][0])
+    if f.get("kind") != "DeclRefExpr" or f["referencedDecl"].get("kind") != "FunctionDecl":
+        return None
+    fd = helper_decl(f["referencedDecl"]["name"], cx)
+    return (m, fd) if fd is not None else None
+
+def nested_helper_calls(n, cx, cond=False, top=True):
+    """helper calls inside expression n in evaluation order; one under a conditionally evaluated operand is Unsupported"""
+    out = []
+    if not isinstance(n, dict):
+        return out
+    k = n.get("kind")
+    if k == "CallExpr":
+        f = cast.strip(n["inner"][0])
+        if f.get("kind") == "DeclRefExpr" and f["referencedDecl"].get("kind") == "FunctionDecl" and helper_decl(f["referencedDecl"]["name"], cx) is not None:
+            for a in n["inner"][1:]:
+                out += nested_helper_calls(a, cx, cond, False)
+            if cond:
+                fd = helper_decl(f["referencedDecl"]["name"], cx)
+                pure = all(not ctype(p_).endswith("*") for p_ in fd.get("inner", []) if p_.get("kind") == "ParmVarDecl") \
+                    and not contains_kind(fd, ("CallExpr",)) and not cx.ub
+                if not pure:
+                    raise Unsupported("helper call under a conditionally evaluated operand")
+            out.append(n)
+            return out
+    if k == "ConditionalOperator":
+        c, a, b = n["inner"]
+        return nested_helper_calls(c, cx, cond, False) + nested_helper_calls(a, cx, True, False) + nested_helper_calls(b, cx, True, False)
+    if k == "BinaryOperator" and n.get("opcode") in ("&&", "||"):
+        a, b = n["inner"]
+        return nested_helper_calls(a, cx, cond, False) + nested_helper_calls(b, cx, True, False)
+    for c in n.get("inner", []):
+        out += nested_helper_calls(c, cx, cond, False)
+    return out
+
+def replace_node(tree, old, new):
+    """copy of tree with the node `old` (identity) replaced by `new`"""
+    if tree is old:
+        return new
+    if isinstance(tree, dict):
+        if "inner" in tree:
+            t = dict(tree)
+            t["inner"] = [replace_node(c, old, new) for c in tree["inner"]]
+            return t
+    return tree
+
+def hoist(s, cx):
+    """a statement whose expressions contain helper calls in nested positions -> [T c = call; ...; s'] or None"""
+    k = s.get("kind")
+    if k == "ReturnStmt" and s.get("inner"):
+        exprs = [s["inner"][0]]
+    elif k == "IfStmt":
+        exprs = [s["inner"][0]]
+    elif k == "DeclStmt":
+        exprs = []
+        for d in s.get("inner", []):
+            init = [x for x in d.get("inner", []) if x.get("kind") not in ("FullComment",)]
+            if init:
+                exprs.append(init[-1])
+    elif k in ("BinaryOperator", "CompoundAssignOperator", "CallExpr", "UnaryOperator"):
+        exprs = [s]
+    else:
+        return None
+    calls = []
+    for e in exprs:
+        calls += nested_helper_calls(e, cx)
+    # a call that IS the whole right-hand side / initialiser / statement is handled directly
+    direct = []
+    if k == "DeclStmt" and len(s.get("inner", [])) == 1:
+        init = [x for x in s["inner"][0].get("inner", []) if x.get("kind") not in ("FullComment",)]
+        if init and helper_call(init[-1], cx):
+            direct.append(helper_call(init[-1], cx)[0])
+    if k == "BinaryOperator" and s.get("opcode") == "=" and helper_call(s["inner"][1], cx):
+        direct.append(helper_call(s["inner"][1], cx)[0])
+    if k == "CallExpr" and helper_call(s, cx):
+        direct.append(s)
+    calls = [c for c in calls if not any(c is d for d in direct)]
+    if not calls:
+        return None
+    pre = []
+    for c in calls:
+        cx.inline_n += 1
+        tmp = "c%d__" % cx.inline_n
+        t = c.get("type", {})
+        if ctype(c) == "void":
+            raise Unsupported("void helper call inside an expression")
+        ref = {"kind": "DeclRefExpr", "type": t, "valueCategory": "prvalue",
+               "referencedDecl": {"kind": "VarDecl", "name": tmp, "type": t, "id": "tmp" + tmp}}
+        pre.append({"kind": "DeclStmt", "inner": [{"kind": "VarDecl", "name": tmp, "type": t, "inner": [c]}]})
+        s = replace_node(s, c, ref)
+    return pre + [s]
+
+def rename_decls(fd, suffix):
+    """deep copy of a FunctionDecl in which every parameter / local it declares is renamed with the suffix"""
+    ids = {}
+    def collect(n):
+        if isinstance(n, dict):
+            if n.get("kind") in ("ParmVarDecl", "VarDecl") and "id" in n and "name" in n:
+                ids[n["id"]] = n["name"] + suffix
+            for c in n.get("inner", []):
+                collect(c)
+    collect(fd)
+    def copy(n):
+        if isinstance(n, dict):
+            m = {}
+            for k, v in n.items():
+                if k == "inner":
+                    m[k] = [copy(c) for c in v]
+                elif k == "referencedDecl" and isinstance(v, dict) and v.get("id") in ids:
+                    w = dict(v); w["name"] = ids[v["id"]]; m[k] = w
+                else:
+                    m[k] = v
+            if n.get("kind") in ("ParmVarDecl", "VarDecl") and n.get("id") in ids:
+                m["name"] = ids[n["id"]]
+            return m
+        return n
+    return copy(fd)
+
+def inline_call(call, fd, target, rest, cx, ret):
+    """`target = f(args); rest` (target None: the value is dropped) with the body of the static helper f in place"""
+    name = fd["name"]
+    if contains_kind(fd, ("GotoStmt", "LabelStmt", "WhileStmt", "ForStmt", "DoStmt", "SwitchStmt")):
+        raise Unsupported("helper %s: loop / goto / switch in an inlined helper" % name)
+    if fd.get("variadic"):
+        raise Unsupported("variadic helper")
+    cx.inline_n += 1
+    fd = rename_decls(fd, "__%d" % cx.inline_n)
+    params = [p for p in fd.get("inner", []) if p.get("kind") == "ParmVarDecl"]
+    body = [x for x in fd.get("inner", []) if x.get("kind") == "CompoundStmt"][0]
+    args = call["inner"][1:]
+    if len(args) != len(params):
+        raise Unsupported("helper argument count")
+    binds, chk = [], []
+    for prm, a in zip(params, args):
+        pt, pn = ctype(prm), prm["name"]
+        if pt in FLOATS:
+            fp = float_param(a, cx)
+            m = a
+            while m.get("kind") in ("ParenExpr",) or (m.get("kind") == "ImplicitCastExpr" and m.get("castKind") in ("LValueToRValue", "NoOp")):
+                m = m["inner"][-1]
+            if fp is None or m.get("kind") != "DeclRefExpr" or cx.floats[fp] != FLOATS[pt]:
+                raise Unsupported("floating-point argument of a helper")
+            cx.floats[pn] = FLOATS[pt]; cx.bound.add(pn)
+            binds.append("let v_%s := v_%s in\n  " % (pn, fp))
+        elif pt.endswith("*"):
+            aa = cast.strip(a)
+            if aa.get("kind") == "UnaryOperator" and aa.get("opcode") == "&":
+                v = cast.strip(aa["inner"][0])
+                if v.get("kind") == "DeclRefExpr" and v["referencedDecl"].get("kind") in ("VarDecl", "ParmVarDecl") \
+                        and v["referencedDecl"]["name"] in cx.bound and v["referencedDecl"]["name"] not in cx.floats:
+                    width(ctype(v))
+                    if width(pt[:-1].strip()) != width(ctype(v)):
+                        raise Unsupported("pointer argument of a different integer type")
+                    cx.deref[pn] = "v_" + v["referencedDecl"]["name"]
+                    continue
+                raise Unsupported("address argument of a helper")
+            if aa.get("kind") == "DeclRefExpr":
+                an = aa["referencedDecl"]["name"]
+                if is_status(an, cx):
+                    cx.status_alias.add(pn); continue
+                if deref_var(an, cx):
+                    cx.deref[pn] = deref_var(an, cx); continue
+                if an in cx.buffers:
+                    cx.buffers.add(pn); continue
+                if an in cx.sources:
+                    cx.sources.add(pn); continue
+                if an in cx.bytes:
+                    cx.bytes[pn] = cx.bytes[an]; continue
+            raise Unsupported("pointer argument of a helper")
+        else:
+            width(pt)
+            binds.append("let v_%s := %s in\n  " % (pn, E(a, cx)))
+            chk += cx.take()
+            cx.bound.add(pn)
+    rt = ctype(fd).split("(")[0].strip()
+    if rt != "void":
+        width(rt)
+    saved = (cx.ret_mode, list(cx.loop_stack), list(cx.end_stack), list(cx.ret_stack), list(cx.inline_stack))
+    def resume(e):
+        """back in the caller: bind the returned value, go on with the rest"""
+        inner = (cx.ret_mode, cx.loop_stack, cx.end_stack, cx.ret_stack, cx.inline_stack)
+        cx.ret_mode, cx.loop_stack, cx.end_stack, cx.ret_stack, cx.inline_stack = saved[0], list(saved[1]), list(saved[2]), list(saved[3]), list(saved[4])
+        try:
+            if target is not None:
+                if e is None:
+                    raise Unsupported("void helper used as a value")
+                cx.unassigned.discard(target); cx.bound.add(target)
+                old_c = dict(cx.consts)
+                if cx.last_return_const is not None:
+                    cx.consts[target] = cx.last_return_const
+                else:
+                    cx.consts.pop(target, None)
+                try:
+                    return "let v_%s := %s in\n  %s" % (target, e, S(rest, cx, ret))
+                finally:
+                    cx.consts = old_c
+            return S(rest, cx, ret)
+        finally:
+            cx.ret_mode, cx.loop_stack, cx.end_stack, cx.ret_stack, cx.inline_stack = inner
+    cx.ret_mode = "int"
+    cx.loop_stack = []          # the helper's body is not a loop body: its returns are calls of `resume`
+    cx.inline_stack = cx.inline_stack + [name]
+    cx.ret_stack = cx.ret_stack + [resume]
+    cx.end_stack = cx.end_stack + [(lambda: resume(None))] if rt == "void" else [x for x in cx.end_stack if False]
+    try:
+        txt = S([body], cx, ret)
+    finally:
+        cx.ret_mode, cx.loop_stack, cx.end_stack, cx.ret_stack, cx.inline_stack = saved[0], list(saved[1]), list(saved[2]), list(saved[3]), list(saved[4])
+    return guard(chk, "".join(binds) + txt, cx)
+
 def local_update(s, cx):
     """`x op= e`, `x++`, `x--` on an integer local as a statement -> (name, new value text), or None"""
     k = s.get("kind")
@@ -679,6 +983,26 @@ def local_update(s, cx):
             return name, wrapz(w, "(Z.land %s %s)" % (ev, er))
         raise Unsupported("compound assignment " + s["opcode"])
     return None
+
+def encoder_call(n, cx):
+    """n (through casts / parens) is a call of a translated encoder on the caller's buffer"""
+    m = cast.strip(n)
+    if m.get("kind") != "CallExpr":
+        return False
+    f = cast.strip(m["inner"][0])
+    return f.get("kind") == "DeclRefExpr" and f["referencedDecl"]["name"] in cx.known and "buffer" in cx.known[f["referencedDecl"]["name"]]
+
+def encoder_stmt(call, target, ttype, rest, cx, ret):
+    """`size_t x = _cbor_encode_..(.., buffer, ..); rest`: the callee's stores (at buffer[0..]) follow the caller's"""
+    if width(ttype) != (64, False):
+        raise Unsupported("encoder result stored in a narrower variable")
+    cx.tailcall_pair = False
+    e = E(cast.strip(call), cx)
+    cx.tailcall_pair = False
+    chk = cx.take()
+    cx.stored = True
+    cx.bound.add(target); cx.unassigned.discard(target)
+    return guard(chk, "let '(v_%s, st_) := %s in\n  let stores := stores ++ st_ in\n  %s" % (target, e, S(rest, cx, ret)), cx)
 
 def is_ub_call(n, cx):
     m = cast.strip(n)
@@ -739,7 +1063,7 @@ def call_stmt(call, target, rest, cx, ret):
     chk = cx.take()
     for o in outs:
         if o.startswith("v_"):
-            cx.unassigned.discard(o[2:])
+            cx.unassigned.discard(o[2:]); cx.consts.pop(o[2:], None)
     if target is not None:
         cx.unassigned.discard(target)
     lets = "".join("let %s := o%d_ in\n  " % (o, i) for i, o in enumerate(outs))
@@ -771,13 +1095,37 @@ def S(stmts, cx, ret):
         return S(rest, cx, ret)
     if k == "CompoundStmt":
         return S([x for x in s.get("inner", [])] + rest, cx, ret)
+    if k == "ReturnStmt" and cx.loop_stack and not cx.ret_stack:
+        # leave the loop with an exit code; the return itself is evaluated after the loop, in the state reached
+        fr = cx.loop_stack[-1]
+        fr["has_exit"] = True
+        code = 2 + len(fr["gotos"]) + len(fr["returns"])
+        fr["returns"].append((code, s))
+        return "(let x_exit := %d in %s)" % (code, fr["tup"])
+    h = hoist(s, cx)
+    if h is not None:
+        return S(h + rest, cx, ret)
+    if k == "ReturnStmt" and cx.ret_stack:
+        # return of an inlined helper: hand the value to the call site
+        if not s.get("inner"):
+            return cx.ret_stack[-1](None)
+        cx.tailcall_pair = False
+        e = E(s["inner"][0], cx)
+        if cx.tailcall_pair:
+            raise Unsupported("encoder call in an inlined helper")
+        chk = cx.take()
+        cx.last_return_const = static_value(s["inner"][0], cx)
+        try:
+            return guard(chk, cx.ret_stack[-1](e), cx)
+        finally:
+            cx.last_return_const = None
     if k == "ReturnStmt":
         if cx.loop_stack:
             raise Unsupported("return inside a loop")
         if cx.ret_mode == "ptr" and cx.granted:
             r = s["inner"][0]
             fin = ", ".join("s_" + f for f in cx.sfields[1]) if cx.sfields else ""
-            if is_null(r):
+            if is_nullptr(r, cx):
                 return "(%s, true%s)" % (cx.req or "None", ", " + fin if fin else "")
             if is_request(r, cx):
                 nm = cast.strip(r)["referencedDecl"]["name"]
@@ -808,7 +1156,10 @@ def S(stmts, cx, ret):
             init = [x for x in d.get("inner", []) if x.get("kind") not in ("FullComment",)]
             t = ctype(d)
             if t.startswith("union "):
-                fp = union_init(init[-1], cx) if init else None
+                if not init:
+                    cx.unions[d["name"]] = None      # set by a later `helper.as_float = value`
+                    continue
+                fp = union_init(init[-1], cx)
                 if fp is None:
                     raise Unsupported("union local")
                 cx.unions[d["name"]] = fp
@@ -823,6 +1174,10 @@ def S(stmts, cx, ret):
                 out.append(("f_" + d["name"], F(init[-1], cx), cx.take()))
                 cx.unassigned.discard(d["name"])
                 continue
+            if t.endswith("*") and cx.ret_mode == "ptr" and cx.granted and (not init or is_null(init[-1])):
+                cx.ptrlocals.add(d["name"])
+                (cx.nullptrs if init else cx.unsetptrs).add(d["name"])
+                continue
             if t.endswith("*"):
                 if cx.ret_mode != "ptr" or not init:
                     raise Unsupported("pointer local")
@@ -835,18 +1190,40 @@ def S(stmts, cx, ret):
                     cx.requests.add(d["name"]); cx.req = "q_" + d["name"]
                 continue
             width(t)
+            if init and encoder_call(init[-1], cx) and d is s.get("inner", [])[-1] and not out:
+                return encoder_stmt(init[-1], d["name"], t, rest, cx, ret)
+            if init and helper_call(init[-1], cx) and d is s.get("inner", [])[-1] and not out:
+                c, fd = helper_call(init[-1], cx)
+                if cast.strip(init[-1]) is init[-1] or True:
+                    cx.inline_n += 1
+                    tmp = "c%d__" % cx.inline_n
+                    d2 = dict(d)
+                    d2["inner"] = [x for x in d.get("inner", []) if x is not init[-1]] + [replace_node(init[-1], c, {"kind": "DeclRefExpr", "type": c.get("type", {}),
+                                   "referencedDecl": {"kind": "VarDecl", "name": tmp, "type": c.get("type", {})}})]
+                    return inline_call(c, fd, tmp, [{"kind": "DeclStmt", "inner": [d2]}] + rest, cx, ret)
             if not init:
                 cx.unassigned.add(d["name"]); cx.bound.add(d["name"])
                 continue
             if is_ub_call(init[-1], cx) and d is s.get("inner", [])[-1] and not out:
                 cx.bound.add(d["name"])
                 return call_stmt(ub_call(init[-1], cx), d["name"], rest, cx, ret)
+            sv = static_value(init[-1], cx)
             out.append(("v_" + d["name"], E(init[-1], cx), cx.take()))
             cx.bound.add(d["name"]); cx.unassigned.discard(d["name"])
+            i0 = cast.strip(init[-1])
+            if sv is not None and i0.get("kind") == "DeclRefExpr" and i0["referencedDecl"]["name"] in cx.consts:
+                cx.consts[d["name"]] = sv        # a copy of a helper's literal result
+            else:
+                cx.consts.pop(d["name"], None)
         txt = S(rest, cx, ret)
         for nm, e, chk in reversed(out):
             txt = guard(chk, "let %s := %s in\n  %s" % (nm, e, txt), cx)
         return txt
+    if k == "IfStmt" and static_value(s["inner"][0], cx) is not None:
+        inner = [x for x in s["inner"]]
+        if static_value(inner[0], cx) != 0:
+            return S([inner[1]] + rest, cx, ret)
+        return S(([inner[2]] if len(inner) > 2 else []) + rest, cx, ret)
     if k == "IfStmt":
         inner = [x for x in s["inner"]]
         c = E(inner[0], cx)
@@ -854,16 +1231,60 @@ def S(stmts, cx, ret):
         then = inner[1]
         els = inner[2] if len(inner) > 2 else None
         snap = (set(cx.unassigned), set(cx.bound), dict(cx.unions), set(cx.ptrlocals), cx.stored, set(cx.status_set), cx.req, set(cx.requests))
+        consts0 = dict(cx.consts); np0 = (set(cx.nullptrs), set(cx.unsetptrs))
         t = S([then] + rest, cx, ret)
         cx.unassigned, cx.bound, cx.unions, cx.ptrlocals, cx.stored, cx.status_set = set(snap[0]), set(snap[1]), dict(snap[2]), set(snap[3]), snap[4], set(snap[5])
         cx.req, cx.requests = snap[6], set(snap[7])
+        cx.consts = dict(consts0); cx.nullptrs, cx.unsetptrs = set(np0[0]), set(np0[1])
         e = S(([els] if els else []) + rest, cx, ret)
         return guard(chk, "(if nz %s then\n  %s\n  else\n  %s)" % (c, t, e), cx)
+    if k == "CallExpr" and helper_call(s, cx):
+        c, fd = helper_call(s, cx)
+        return inline_call(c, fd, None, rest, cx, ret)
+    if k == "BinaryOperator" and s.get("opcode") == "=" and helper_call(s["inner"][1], cx):
+        l0 = cast.strip(s["inner"][0])
+        if l0.get("kind") == "DeclRefExpr" and l0["referencedDecl"]["name"] in cx.bound and l0["referencedDecl"]["name"] not in cx.floats:
+            w0, s0 = width(ctype(l0))
+            c, fd = helper_call(s["inner"][1], cx)
+            cx.inline_n += 1
+            tmp = "c%d__" % cx.inline_n
+            # the conversion of the returned value to the variable's type is applied to the temporary
+            asg = dict(s); asg["inner"] = [s["inner"][0], replace_node(s["inner"][1], c, {"kind": "DeclRefExpr", "type": c.get("type", {}),
+                   "referencedDecl": {"kind": "VarDecl", "name": tmp, "type": c.get("type", {})}})]
+            return inline_call(c, fd, tmp, [asg] + rest, cx, ret)
+        raise Unsupported("assignment of a helper's result")
     if k == "CallExpr" and is_ub_call(s, cx):
         return call_stmt(ub_call(s, cx), None, rest, cx, ret)
     if k == "BinaryOperator" and s.get("opcode") == "=":
         lhs, rhs = s["inner"]
         l = cast.strip(lhs)
+        if l.get("kind") == "MemberExpr" and not l.get("isArrow"):
+            ub_ = cast.strip(l["inner"][0])
+            if ub_.get("kind") == "DeclRefExpr" and ub_["referencedDecl"]["name"] in cx.unions and ctype(l) in FLOATS:
+                # helper.as_float = value
+                m = rhs
+                while m.get("kind") in ("ParenExpr",) or (m.get("kind") == "ImplicitCastExpr" and m.get("castKind") in ("LValueToRValue", "NoOp")):
+                    m = m["inner"][-1]
+                if m.get("kind") == "DeclRefExpr" and m["referencedDecl"]["name"] in cx.floats and cx.floats[m["referencedDecl"]["name"]] == FLOATS[ctype(l)]:
+                    cx.unions[ub_["referencedDecl"]["name"]] = m["referencedDecl"]["name"]
+                    cx.union_member[ub_["referencedDecl"]["name"]] = l["name"]
+                    return S(rest, cx, ret)
+                raise Unsupported("union member assignment")
+        if cx.granted and l.get("kind") == "DeclRefExpr" and l["referencedDecl"]["name"] in cx.ptrlocals:
+            nm = l["referencedDecl"]["name"]
+            if nm in cx.requests:
+                raise Unsupported("pointer local assigned after the request")
+            if is_null(rhs):
+                cx.unsetptrs.discard(nm); cx.nullptrs.add(nm)
+                return S(rest, cx, ret)
+            rr = cast.strip(rhs)
+            if rr.get("kind") == "CallExpr" and cx.req is None:
+                e = P(rhs, cx)
+                chk = cx.take()
+                cx.unsetptrs.discard(nm); cx.nullptrs.discard(nm)
+                cx.requests.add(nm); cx.req = "q_" + nm
+                return guard(chk, "let q_%s := %s in\n  %s" % (nm, e, S(rest, cx, ret)), cx)
+            raise Unsupported("pointer assignment")
         if cx.granted:
             tgt = None
             if l.get("kind") == "UnaryOperator" and l.get("opcode") == "*":
@@ -885,12 +1306,15 @@ def S(stmts, cx, ret):
                     return S(rest, cx, ret)      # pointer field: not rendered
         if l.get("kind") == "UnaryOperator" and l.get("opcode") == "*":
             pp = cast.strip(l["inner"][0])
-            if pp.get("kind") == "DeclRefExpr" and pp["referencedDecl"]["name"] in cx.inouts:
+            if pp.get("kind") == "DeclRefExpr" and deref_var(pp["referencedDecl"]["name"], cx):
                 width(ctype(l))
                 er = E(rhs, cx)
                 chk = cx.take()
-                return guard(chk, "let p_%s := %s in\n  %s" % (pp["referencedDecl"]["name"], er, S(rest, cx, ret)), cx)
-            if cx.status and pp.get("kind") == "DeclRefExpr" and pp["referencedDecl"]["name"] == cx.status[0]:
+                dv = deref_var(pp["referencedDecl"]["name"], cx)
+                if dv.startswith("v_"):
+                    cx.unassigned.discard(dv[2:]); cx.consts.pop(dv[2:], None)
+                return guard(chk, "let %s := %s in\n  %s" % (dv, er, S(rest, cx, ret)), cx)
+            if cx.status and pp.get("kind") == "DeclRefExpr" and is_status(pp["referencedDecl"]["name"], cx):
                 cl = cast.strip(rhs)
                 if cl.get("kind") == "CompoundLiteralExpr" and cl.get("inner") and cl["inner"][0].get("kind") == "InitListExpr":
                     vals = [x for x in cl["inner"][0].get("inner", [])]
@@ -905,11 +1329,13 @@ def S(stmts, cx, ret):
                 raise Unsupported("assignment to the out-parameter")
         if l.get("kind") == "MemberExpr" and l.get("isArrow") and cx.status:
             b0 = cast.strip(l["inner"][0])
-            if b0.get("kind") == "DeclRefExpr" and b0["referencedDecl"]["name"] == cx.status[0] and l["name"] in cx.status[1]:
+            if b0.get("kind") == "DeclRefExpr" and is_status(b0["referencedDecl"]["name"], cx) and l["name"] in cx.status[1]:
                 er = E(rhs, cx)
                 chk = cx.take()
                 cx.status_set.add(l["name"])
                 return guard(chk, "let t_%s := %s in\n  %s" % (l["name"], er, S(rest, cx, ret)), cx)
+        if l.get("kind") == "DeclRefExpr" and l["referencedDecl"]["name"] in cx.bound and encoder_call(rhs, cx):
+            return encoder_stmt(rhs, l["referencedDecl"]["name"], ctype(l), rest, cx, ret)
         if l.get("kind") == "DeclRefExpr" and l["referencedDecl"]["name"] in cx.flocals:
             er = F(rhs, cx)
             chk = cx.take()
@@ -937,6 +1363,7 @@ def S(stmts, cx, ret):
             width(ctype(l))
             er = E(rhs, cx)
             chk = cx.take()
+            cx.consts.pop(l["referencedDecl"]["name"], None)
             cx.unassigned.discard(l["referencedDecl"]["name"])
             return guard(chk, "let v_%s := %s in\n  %s" % (l["referencedDecl"]["name"], er, S(rest, cx, ret)), cx)
         raise Unsupported("assignment target")
@@ -967,9 +1394,75 @@ def S(stmts, cx, ret):
                     return "let %s := %s in\n  %s" % (cur, new, S(rest, cx, ret))
         u = local_update(s, cx)
         if u is not None:
+            cx.consts.pop(u[0], None)
             chk = cx.take()
             return guard(chk, "let v_%s := %s in\n  %s" % (u[0], u[1], S(rest, cx, ret)), cx)
         raise Unsupported("compound assignment")
+    if k == "SwitchStmt":
+        parts = [x for x in s.get("inner", []) if x.get("kind")]
+        if len(parts) != 2 or parts[1].get("kind") != "CompoundStmt":
+            raise Unsupported("switch shape")
+        cond, body = parts
+        width(ctype(cond))
+        groups = []          # [labels (None = default)], statements
+        for x in body.get("inner", []):
+            labels = []
+            while x.get("kind") in ("CaseStmt", "DefaultStmt"):
+                if x["kind"] == "CaseStmt":
+                    ins = [y for y in x["inner"] if y.get("kind")]
+                    if len(ins) != 2:
+                        raise Unsupported("case range")
+                    v = static_value(ins[0], cx)
+                    if v is None and ins[0].get("kind") == "ConstantExpr" and "value" in ins[0]:
+                        v = int(ins[0]["value"])
+                    if v is None:
+                        raise Unsupported("case label")
+                    labels.append(v); x = ins[1]
+                else:
+                    labels.append(None); x = [y for y in x["inner"] if y.get("kind")][-1]
+            if labels:
+                groups.append((labels, [x]))
+            elif groups:
+                groups[-1][1].append(x)
+            else:
+                raise Unsupported("statement before the first case")
+        cx.inline_n += 1
+        tmp = "sw%d__" % cx.inline_n
+        ct = cond.get("type", {})
+        ref = {"kind": "DeclRefExpr", "type": ct, "referencedDecl": {"kind": "VarDecl", "name": tmp, "type": ct}}
+        chain = None
+        default = None
+        cases = []
+        for gi, (labels, sts) in enumerate(groups):
+            last = sts[-1].get("kind")
+            if last == "BreakStmt":
+                sts = sts[:-1]
+            elif last != "ReturnStmt" and gi != len(groups) - 1:
+                raise Unsupported("fall-through between cases")
+            if any(contains_kind(x, ("BreakStmt",)) for x in sts):
+                raise Unsupported("break inside a case")
+            blk = {"kind": "CompoundStmt", "inner": sts}
+            if None in labels:
+                if default is not None:
+                    raise Unsupported("two defaults")
+                default = blk      # other labels of the same group are covered by "none of the other cases"
+                others = [v for v in labels if v is not None]
+                if others:
+                    cases.append((others, blk))
+            else:
+                cases.append((labels, blk))
+        def lit_node(v):
+            return {"kind": "IntegerLiteral", "value": str(v), "type": {"qualType": "int"}}
+        def eq(v):
+            return {"kind": "BinaryOperator", "opcode": "==", "type": {"qualType": "int"}, "inner": [ref, lit_node(v)]}
+        chain = default if default is not None else {"kind": "CompoundStmt", "inner": []}
+        for labels, blk in reversed(cases):
+            c = eq(labels[0])
+            for v in labels[1:]:
+                c = {"kind": "BinaryOperator", "opcode": "||", "type": {"qualType": "int"}, "inner": [c, eq(v)]}
+            chain = {"kind": "IfStmt", "inner": [c, blk, chain]}
+        decl = {"kind": "DeclStmt", "inner": [{"kind": "VarDecl", "name": tmp, "type": ct, "inner": [cond]}]}
+        return S([decl, chain] + rest, cx, ret)
     if k == "LabelStmt":
         return S([x for x in s.get("inner", []) if x.get("kind")] + rest, cx, ret)
     if k == "GotoStmt":
@@ -979,7 +1472,9 @@ def S(stmts, cx, ret):
         if cx.loop_stack:
             fr = cx.loop_stack[-1]
             fr["has_exit"] = True
-            code = fr["gotos"].setdefault(tid, 2 + len(fr["gotos"]))
+            if tid not in fr["gotos"]:
+                fr["gotos"][tid] = 2 + len(fr["gotos"]) + len(fr["returns"])
+            code = fr["gotos"][tid]
             return "(let x_exit := %d in %s)" % (code, fr["tup"])
         return goto_code(tid, cx, ret)
     if k == "BreakStmt":
@@ -1019,6 +1514,8 @@ def S(stmts, cx, ret):
             assigned_in(st, names, declared, cx)
         names -= declared
         state = sorted(names)
+        for nm in state:
+            cx.consts.pop(nm, None)
         if not state:
             raise Unsupported("loop without state")
         pre = ""
@@ -1032,14 +1529,14 @@ def S(stmts, cx, ret):
                     cx.indet_params.append(nm)
                 pre += "let v_%s := (u_ %d) in\n  " % (nm, cx.indet_params.index(nm))
                 cx.unassigned.discard(nm)
-        has_exit = cx.ub or contains_kind(body, ("GotoStmt", "BreakStmt"))
+        has_exit = cx.ub or contains_kind(body, ("GotoStmt", "BreakStmt", "ReturnStmt"))
         vs = ["v_" + n for n in state] + (["x_exit"] if has_exit else [])
         tup = "(" + ", ".join(vs) + ")" if len(vs) > 1 else vs[0]
         pat = "'" + tup if len(vs) > 1 else vs[0]
         cond_txt = E(cond, cx)
         if cx.take():
             raise Unsupported("definedness test in a loop condition")
-        fr = {"tup": tup, "inc": inc, "gotos": {}, "has_exit": has_exit}
+        fr = {"tup": tup, "inc": inc, "gotos": {}, "returns": [], "has_exit": has_exit}
         snap = (set(cx.unassigned), set(cx.bound), dict(cx.unions), set(cx.ptrlocals), cx.stored)
         cx.loop_stack.append(fr); cx.end_stack.append(lambda: tup)
         try:
@@ -1049,12 +1546,17 @@ def S(stmts, cx, ret):
         if fr["has_exit"] and not has_exit:
             raise Unsupported("internal: exit discovered late")
         cx.unassigned, cx.bound, cx.unions, cx.ptrlocals, cx.stored = set(snap[0]), set(snap[1]), dict(snap[2]), set(snap[3]), snap[4]
+        cx.loopvars.append(list(state) + (["exit"] if has_exit else []))
         cond_fun = "(fun %s => %snz %s)" % (pat, "(x_exit =? 0) && " if has_exit else "", cond_txt)
         body_fun = "(fun %s =>\n    %s)" % (pat, body_txt)
         after = S(rest, cx, ret)
         if has_exit:
-            for tid, code in sorted(fr["gotos"].items(), key=lambda kv: -kv[1]):
-                after = "(if x_exit =? %d then\n  %s\n  else\n  %s)" % (code, goto_code(tid, cx, ret), after)
+            exits = [(code, ("goto", tid)) for tid, code in fr["gotos"].items()] + [(code, ("return", st)) for code, st in fr["returns"]]
+            for code, (what, x) in sorted(exits, key=lambda kv: -kv[0]):
+                snap2 = (set(cx.unassigned), set(cx.bound), dict(cx.unions), set(cx.ptrlocals), cx.stored, set(cx.status_set))
+                ex = goto_code(x, cx, ret) if what == "goto" else S([x], cx, ret)
+                cx.unassigned, cx.bound, cx.unions, cx.ptrlocals, cx.stored, cx.status_set = set(snap2[0]), set(snap2[1]), dict(snap2[2]), set(snap2[3]), snap2[4], set(snap2[5])
+                after = "(if x_exit =? %d then\n  %s\n  else\n  %s)" % (code, ex, after)
             if cx.ub:
                 after = "(if x_exit =? (-1) then None else\n  %s)" % after
             pre += "let x_exit := 0 in\n  "
@@ -1142,6 +1644,7 @@ def translate_function(src, incs, defs, name, known, kinds, opts=None):
         if l_ not in cx.bound:
             raise Unsupported("length parameter " + l_)
     cx.known_ub = known.get("__ub__", {})
+    cx.fn_names = set(e[1] for e in FUNCTIONS)
     if cx.inouts:
         ret0 = lambda e: "(" + ", ".join([e] + ["p_" + n for n in cx.inouts]) + ")"
     elif cx.status:
@@ -1164,7 +1667,12 @@ def translate_function(src, incs, defs, name, known, kinds, opts=None):
     if cx.indet:
         # the values of locals that are indeterminate where the function first uses them: an oracle, by index
         args.append("(u_ : Z -> Z)")
+    if opts.get("must_call") and ("(g%s " % opts["must_call"]) not in txt:
+        raise Unsupported("the stores are not made through %s (the bridge relies on that)" % opts["must_call"])
+    LOOPVARS[name] = cx.loopvars
     return "Definition g%s %s :=\n  %s%s." % (name, " ".join(args), pre, txt)
+
+LOOPVARS = {}     # function -> [[names of the loop state components]] of the last translation
 
 # (file, function, parameter kinds) in dependency order
 FUNCTIONS = [
@@ -1212,7 +1720,7 @@ FUNCTIONS = [
     ("cbor/internal/memory_utils.c", "_cbor_realloc_multiple", ["ptr", "int", "int"], {"ret": "ptr"}),
     ("cbor/encoding.c", "cbor_encode_single", ["f32", "buffer", "int"]),
     ("cbor/encoding.c", "cbor_encode_double", ["f64", "buffer", "int"]),
-    ("cbor/encoding.c", "cbor_encode_half", ["f32", "buffer", "int"], {"ub": True}),
+    ("cbor/encoding.c", "cbor_encode_half", ["f32", "buffer", "int"], {"ub": True, "must_call": "_cbor_encode_uint16"}),
     ("cbor/internal/loaders.c", "_cbor_decode_half", ["source"], {"ret": "float"}),
     ("cbor/internal/stack.c", "_cbor_stack_push", ["fields:_cbor_stack", "skip", "skip"], {"ret": "ptr", "granted": True}),
     ("cbor/internal/unicode.c", "_cbor_unicode_decode", ["inout", "inout", "int"], {"ub": True}),
@@ -1242,17 +1750,57 @@ def translate_all(cfg):
             out.append((name, None))
     return out, notes
 
-def emit(fns):
+def emit(fns, spans=None):
+    """Gen_leaf.v; spans (if a list) receives (function name, first line, last line) of every translated function"""
     lines = ["(* GENERATED by translator/leaf.py from the clang AST of /repo/src — do not edit *)",
-             "From Coq Require Import ZArith List Bool.", "Import ListNotations.", "From CB Require Import PHalfShape GenLeafTypes.", "From CBGen Require Import Gen_utf8d Gen_config.",
+             "From Coq Require Import ZArith List Bool String.", "Import ListNotations.", "From CB Require Import PHalfShape GenLeafTypes.", "From CBGen Require Import Gen_utf8d Gen_config.",
              "Local Open Scope Z_scope.", "Local Open Scope bool_scope.", ""]
     for name, txt in fns:
         if txt is None:
             lines.append("(* %s: outside the supported subset — tied by correspondence only *)" % name)
             lines.append("Definition g%s := fb%s." % (name, name))
             lines.append("Definition g%s_supported : bool := false." % name)
+            lines.append("Definition g%s_loopvars : list (list string) := []." % name)
         else:
+            first = sum(x.count("\n") + 1 for x in lines) + 1
             lines.append(txt)
+            if spans is not None:
+                spans.append((name, first, first + txt.count("\n")))
             lines.append("Definition g%s_supported : bool := true." % name)
+            lines.append("Definition g%s_loopvars : list (list string) := [%s]." % (name, "; ".join(
+                "[" + "; ".join('"%s"%%string' % v for v in lv) + "]" for lv in LOOPVARS.get(name, []))))
         lines.append("")
     return "\n".join(lines)
+
+def emit_checked(fns):
+    """emit, then compile the text once; a function whose generated text does not type-check (a translator
+    bug) is re-emitted as its fallback, so the worst case is a degraded function, never a Gen_leaf.v that
+    blocks every property.  -> (text, notes)"""
+    from . import selfcheck
+    fns = list(fns)
+    notes = []
+    for _ in range(len(fns) + 2):
+        spans = []
+        text = emit(fns, spans)
+        if selfcheck.already_compiled("Gen_leaf", text):
+            return text, notes
+        ok, line, msg = selfcheck.coqc_text("Gen_leaf", text)
+        if ok:
+            return text, notes
+        if not notes:
+            # is anything compilable at all?  (fresh setup: the support files are not built yet)
+            if not selfcheck.coqc_text("Gen_leaf", emit([(n, None) for n, _ in fns]))[0]:
+                return text, []
+        hit = None
+        if line is not None:
+            for name, a, b in spans:
+                if a <= line <= b + 1:
+                    hit = name
+        if hit is None:
+            # cannot attribute the error: degrade every remaining translated function
+            for name, a, b in spans:
+                notes.append("%s: %s" % (name, selfcheck.NOTE))
+            return emit([(n, None) for n, _ in fns]), notes
+        notes.append("%s: %s" % (hit, selfcheck.NOTE))
+        fns = [(n, (None if n == hit else t)) for n, t in fns]
+    return emit([(n, None) for n, _ in fns]), notes
